@@ -53,8 +53,12 @@ def _case(draw):
         case['again'] = draw(st.sampled_from([1, 1, 2]))
     if back:
         case['back'] = back
+        if draw(st.booleans()):
+            case['presort'] = True
     if init:
         case['init'] = init
+    if draw(st.integers(0, 3)) == 0:
+        case['reloaded'] = True
     return case
 
 
